@@ -9,4 +9,6 @@ for p in "$@"; do
   echo "exit=$?"
 done
 git -C /repo checkout -- .
+# the evidence files written while /repo was patched do not describe the unchanged tree: restore the committed ones
+for p in "$@"; do git -C /verif checkout -- "evidence/$p.json" 2>/dev/null; done
 git -C /repo status --short | head -3
